@@ -170,4 +170,20 @@ CLAIMED['C10'] = dict(category='proof',
    technique='contract-based deductive verification: loop invariants over symbolic-length arrays (VCs from the real loop '
              'bodies, z3 with uninterpreted functions + linear integer/real arithmetic), proxy execution of the whole '
              'function at fixed sizes; bounded run-time contracts for reactor-built meshes')
+CLAIMED['C03'] = dict(category='proof',
+   text='For all real step sizes, power-cell sizes and polynomial coefficients (positive on the cells): the sum over the '
+        'axial steps of step length x the linear power the real get_power_sweep returns after the real presweep_setup '
+        'equals the sum over the power cells of cell length x average linear power, for pin-bundle bounds aligned with '
+        'the power cells or falling inside one; _integrate returns the analytic cell integral for 1-4 polynomial terms and '
+        'any subset of components; Reactor._setup_scale_asm_power scales every total, profile and average profile of '
+        'every assembly by the same factor and the totals sum to requested power x scaling factor (normalisation on / '
+        'off, empty positions); AssemblyPower.__init__ applies its scale to every profile.',
+   note=_ASSUME + 'Enumerated structures: 1-3 power cells, 1-3 steps per cell, 1-3 polynomial terms in the sweep identity '
+        '(the code has no other size dependence). Preconditions: mesh planes on every power-cell boundary and bundle '
+        'bound (C05), positive linear power (input check; negative values are clipped by the sweep). Bounded run-time '
+        'contracts on ten generated problems tie Assembly._power_delivered and Assembly.total_power to an independent '
+        'integration of the CSV and check that temperature rises are linear in the scaling factor for constant '
+        'properties. Not decided: binary-flux (VARPOW) power.',
+   technique='contract-based deductive verification (proxy execution of the real AssemblyPower methods, exact rational '
+             'normaliser, path enumeration); bounded run-time contracts for the Assembly tally and CSV parsing')
 NOT_APPLICABLE = {f'C{i:02d}': 'check not built yet in this round (see DESIGN.md section 12 build order)' for i in range(1, 21)}
